@@ -1923,7 +1923,12 @@ class Exec:
         if re.search(r' as Iterator>::take$', c):
             return R({'kind': 'take', 'inner': args[0], 'n': args[1]})
         if re.search(r' as IntoIterator>::into_iter$', c):
-            return R(args[0])
+            a = args[0]
+            if re.match(r'^<&(mut )?\[', c) and isinstance(a, (Slice, ArrRef)):      # `for x in slice`: core's impl IntoIterator for &[T] / &mut [T] is slice.iter() / iter_mut()
+                if isinstance(a, ArrRef):
+                    a = Slice(a.arr, bv(0), a.arr.len)
+                return R({'kind': 'slice', 'arr': a.arr, 'pos': a.start, 'end': a.end})
+            return R(a)
         if re.search(r' as Iterator>::size_hint$', c):
             r = args[0]
             if isinstance(r, Ref):
